@@ -163,6 +163,8 @@ type Sut struct {
 	E   *Engine
 	P   *Peer
 	CL  *ConnLog
+	// LogonAnswerDelay: how long the stub peer takes to answer an initiator's Logon (Sut.Logon).
+	LogonAnswerDelay time.Duration
 }
 
 var beginStrings = []string{"FIX.4.2", "FIX.4.4", "FIX.4.0", "FIX.4.1", "FIX.4.3", "FIXT.1.1"}
@@ -266,6 +268,14 @@ func (s *Sut) Logon(hb int, reset bool) (RecvMsg, bool) {
 		if lg.Str(141) == "Y" {
 			p.OutSeq = 1
 			reset = true
+		}
+		if s.LogonAnswerDelay > 0 {
+			// a slow counterparty: the answer to the initiator's Logon takes a while
+			s.Env.Advance(s.LogonAnswerDelay)
+			p.Collect()
+			if !p.Connected() {
+				return lg, false
+			}
 		}
 		p.Send("A", p.LogonBody(s.E.Cfg.HeartBtInt, reset), MsgOpt{})
 		return lg, p.Connected()
